@@ -175,8 +175,8 @@ pub fn profile_for(prop: &str, variant: u64, thorough: bool) -> Profile {
             p.p_fault = 30;
             p.p_bad_fd = 25;
             p.p_lifecycle = 25;
-            p.outside = [16, 4, 5, 5, 5, 20, 26, 2, 1, 4, 0, 1, 1];
-            p.incb = [5, 3, 3, 3, 3, 6, 0, 0, 0, 2, 0, 0, 0];
+            p.outside = [16, 4, 5, 5, 5, 20, 26, 2, 1, 4, 3, 1, 1];
+            p.incb = [5, 3, 3, 3, 3, 6, 0, 0, 0, 2, 1, 0, 0];
             p.rets = [2, 2, 2, 6];
             p.p_cb_ret = 25;
             p.bad_adapters = true;
@@ -311,6 +311,7 @@ fn gen_op(rng: &mut Rng, p: &Profile, incb: bool, depth: u32) -> Option<Op> {
             2 | 3 => Op::AdapterDrop(rng.below(4) as u8),
             _ => Op::AdapterIntoInner(rng.below(4) as u8),
         },
+        10 if matches!(p.name.as_str(), "C15" | "C02" | "C08") && rng.chance(2, 3) => Op::RegisterAgain(gen_live_sel(rng, p, incb)),
         10 => match rng.below(5) {
             0 | 1 => Op::ProbeDead,
             2 => Op::Churn(*rng.pick(&[1u16, 3, 254, 255, 256, 257, 300, 511, 512])),
@@ -428,7 +429,57 @@ fn many_ready_scenario(rng: &mut Rng, p: &Profile, n: usize) -> History {
     History { profile: p.name.clone(), steps, end: 0 }
 }
 
+/// C08/C13: many idle callbacks due in one dispatch (inserted from a source callback or from outside), a good part
+/// of which operate on the loop themselves: insert further idles and sources, ping, remove
+fn idle_burst_scenario(rng: &mut Rng, p: &Profile) -> History {
+    let n = rng.range(5, 12);
+    let mut idles = Vec::new();
+    for _ in 0..n {
+        let mut ops = vec![];
+        if rng.chance(1, 2) {
+            for _ in 0..rng.range(1, 2) {
+                if let Some(o) = gen_op(rng, p, true, 2) {
+                    if !matches!(o, Op::Remove(Sel::Me) | Op::Disable(Sel::Me) | Op::Update(Sel::Me)) {
+                        ops.push(o);
+                    }
+                }
+            }
+            if rng.chance(1, 2) {
+                ops.push(Op::InsertIdle(Box::new(IdleSpec { ops: vec![] })));
+            }
+        }
+        idles.push(Op::InsertIdle(Box::new(IdleSpec { ops })));
+    }
+    let from_cb = rng.chance(1, 2);
+    let prog = if from_cb { vec![CbStep { ops: idles.clone(), ret: Ret::Continue, tact: TAct::ToInstant(Dl::Far), child_ret: Ret::Continue }] } else { vec![] };
+    let mut steps = vec![Step::Op(Op::Insert(Box::new(SourceSpec { kind: Kind::Ping, lifecycle: false, prog, fault: None, via_insert: rng.chance(1, 2), bad_fd: None, ready_at_insert: false, owns_adapter: false })))];
+    for _ in 0..rng.below(3) {
+        steps.push(Step::Op(Op::Insert(Box::new(gen_source(rng, p, 1)))));
+    }
+    if from_cb {
+        steps.push(Step::Op(Op::Ping(Sel::Live(0))));
+    } else {
+        steps.extend(idles.into_iter().map(Step::Op));
+    }
+    for _ in 0..3 {
+        steps.push(Step::Dispatch(0));
+    }
+    for _ in 0..rng.below(6) {
+        if let Some(op) = gen_op(rng, p, false, 0) {
+            steps.push(Step::Op(op));
+        }
+        if rng.chance(1, 2) {
+            steps.push(Step::Dispatch(0));
+        }
+    }
+    steps.push(Step::Dispatch(0));
+    History { profile: p.name.clone(), steps, end: rng.below(2) as u8 }
+}
+
 pub fn gen_history(rng: &mut Rng, p: &Profile) -> History {
+    if matches!(p.name.as_str(), "C08" | "C13") && rng.chance(1, 25) {
+        return idle_burst_scenario(rng, p);
+    }
     if p.name == "C01" && rng.chance(1, 10) {
         return slot_reuse_scenario(rng, p);
     }
